@@ -262,7 +262,11 @@ pub fn gen_script(rng: &mut Rng, spec: &WorldSpec, built: &BuiltWorld, cfg: &str
                     let mode_as_obj = rng.chance(1, 2);
                     let use_out = rng.chance(1, 2) && slots[store].is_some();
                     let eff = mode_of(call_mode.as_deref().unwrap_or(&toks[t].mode));
-                    let r = fresh_analyse(&dict, eff, Some(toks[t].subset), &text);
+                    // a text on which the core library itself panics has no result to compare with (not this property's matter)
+                    let r = match crate::harness::catch(|| fresh_analyse(&dict, eff, Some(toks[t].subset), &text)) {
+                        Ok(r) => r,
+                        Err(_) => continue,
+                    };
                     let mut op = json!({"op":"tokenize","t":t,"text":text,"mode":call_mode,"mode_as_obj":mode_as_obj,
                                         "out": if use_out { json!(store) } else { Value::Null }, "store": store});
                     match r {
@@ -572,7 +576,7 @@ pub fn gen_script(rng: &mut Rng, spec: &WorldSpec, built: &BuiltWorld, cfg: &str
                 };
                 prev_text = Some((text.clone(), handler));
                 let subset = if handler { InfoSubset::all() } else { InfoSubset::empty() };
-                if let Ok(list) = fresh_analyse(&dict, Mode::C, Some(subset), &text) {
+                if let Ok(Ok(list)) = crate::harness::catch(|| fresh_analyse(&dict, Mode::C, Some(subset), &text)) {
                     let surfaces: Vec<String> = list.iter().map(|m| m.surface().to_string()).collect();
                     // consecutive positions so that repeated texts really are consecutive calls of this thread
                     at = at.min(ops.len());
